@@ -41,7 +41,7 @@ def spec(tier, seed, repo):
     q = tier == "quick"
     return dict(
         stages=[stage("w_c07", repo, flavour="fast", nshards=16, case_timeout=300 if q else 1800),
-                stage("w_c07", repo, flavour="fast", args=["--opt", "rng=real"], nshards=8, case_timeout=300,
+                stage("w_c07", repo, flavour="fast", args=["--opt", "rng=real"], nshards=16, case_timeout=300 if q else 1200,
                       label="w_c07-real-rng")],
         level="exploration",
         rule="one case = one sampler (function, modulus / stack size, quality level) run for N draws feeding one or "
@@ -59,6 +59,6 @@ def spec(tier, seed, repo):
         floors={"perm_draws": 1000000 if q else 20000000, "rotation_draws": 300000, "bounded_draws": 10000000,
                 "residue_draws": 10000000, "bits_draws": 2000000, "tables_judged": 250,
                 "tables_permutation-histogram": 7, "tables_permutation-marginals": 30, "tables_rotation-offset": 9,
-                "real_draws_s": 100000, "real_draws_ss": 20000, "real_draws_w": 100000, "real_tests": 40},
+                "real_draws_s": 100000, "real_draws_ss": 8000, "real_draws_w": 100000, "real_tests": 40},
         post=_post,
     )
